@@ -20,6 +20,8 @@ pub const LIVE_BASE_LIMIT: usize = 128 << 20;
 pub const HARD_LIMIT: usize = 1 << 30;
 
 thread_local! {
+    /// (tape ptr, tape len, label ptr, label len) of the case this thread is executing
+    static TLS_CUR: Cell<(usize, usize, usize, usize)> = const { Cell::new((0, 0, 0, 0)) };
     static ACTIVE: Cell<bool> = const { Cell::new(false) };
     static MAX_REQ: Cell<usize> = const { Cell::new(0) };
     static LIVE: Cell<isize> = const { Cell::new(0) };
@@ -35,6 +37,14 @@ static CUR_LEN: AtomicUsize = AtomicUsize::new(0);
 static CUR_LABEL_PTR: AtomicPtr<u8> = AtomicPtr::new(std::ptr::null_mut());
 static CUR_LABEL_LEN: AtomicUsize = AtomicUsize::new(0);
 static IN_EMERGENCY: AtomicBool = AtomicBool::new(false);
+static PROP_PTR: AtomicPtr<u8> = AtomicPtr::new(std::ptr::null_mut());
+static PROP_LEN: AtomicUsize = AtomicUsize::new(0);
+
+/// name of the property being checked (for the emergency replay file)
+pub fn set_property(id: &'static str) {
+    PROP_PTR.store(id.as_ptr() as *mut u8, Ordering::SeqCst);
+    PROP_LEN.store(id.len(), Ordering::SeqCst);
+}
 
 pub struct CountingAlloc;
 
@@ -133,15 +143,20 @@ fn emergency(code: i32, size: usize) -> ! {
             write_usize(f, code as usize);
             raw_write(f, b",\"request_bytes\":");
             write_usize(f, size);
-            raw_write(f, b",\"label\":\"");
-            let lp = CUR_LABEL_PTR.load(Ordering::SeqCst);
-            let ll = CUR_LABEL_LEN.load(Ordering::SeqCst);
+            raw_write(f, b",\"kind\":\"tape\",\"property\":\"");
+            let pp = PROP_PTR.load(Ordering::SeqCst);
+            if !pp.is_null() {
+                raw_write(f, std::slice::from_raw_parts(pp, PROP_LEN.load(Ordering::SeqCst)));
+            }
+            raw_write(f, b"\",\"sub\":\"");
+            // prefer the faulting thread's own record
+            let (tp, tl, tlp, tll) = TLS_CUR.try_with(|c| c.get()).unwrap_or((0, 0, 0, 0));
+            let (lp, ll) = if tlp != 0 { (tlp as *mut u8, tll) } else { (CUR_LABEL_PTR.load(Ordering::SeqCst), CUR_LABEL_LEN.load(Ordering::SeqCst)) };
             if !lp.is_null() {
                 raw_write(f, std::slice::from_raw_parts(lp, ll));
             }
             raw_write(f, b"\",\"tape_hex\":\"");
-            let p = CUR_PTR.load(Ordering::SeqCst);
-            let l = CUR_LEN.load(Ordering::SeqCst);
+            let (p, l) = if tp != 0 { (tp as *mut u8, tl) } else { (CUR_PTR.load(Ordering::SeqCst), CUR_LEN.load(Ordering::SeqCst)) };
             if !p.is_null() {
                 let s = std::slice::from_raw_parts(p, l);
                 const HEX: &[u8; 16] = b"0123456789abcdef";
@@ -161,15 +176,20 @@ fn emergency(code: i32, size: usize) -> ! {
 extern "C" fn on_abort(_sig: i32) {
     emergency(78, 0)
 }
+extern "C" fn on_segv(_sig: i32) {
+    emergency(79, 0)
+}
 
 /// Register the case about to run (for the emergency record). The slices must outlive the case.
 pub fn set_current(label: &'static str, tape: &[u8]) {
+    TLS_CUR.with(|c| c.set((tape.as_ptr() as usize, tape.len(), label.as_ptr() as usize, label.len())));
     CUR_LABEL_PTR.store(label.as_ptr() as *mut u8, Ordering::SeqCst);
     CUR_LABEL_LEN.store(label.len(), Ordering::SeqCst);
     CUR_PTR.store(tape.as_ptr() as *mut u8, Ordering::SeqCst);
     CUR_LEN.store(tape.len(), Ordering::SeqCst);
 }
 pub fn clear_current() {
+    TLS_CUR.with(|c| c.set((0, 0, 0, 0)));
     CUR_PTR.store(std::ptr::null_mut(), Ordering::SeqCst);
     CUR_LEN.store(0, Ordering::SeqCst);
 }
@@ -200,7 +220,15 @@ pub fn init() {
             }
         }));
         unsafe {
-            libc::signal(libc::SIGABRT, on_abort as usize);
+            libc::signal(libc::SIGABRT, on_abort as *const () as usize);
+            // memory faults inside the code under test (e.g. an FFI call with a bad pointer): record the
+            // case and leave with code 79. SA_ONSTACK: use the alternate stacks std set up per thread.
+            let mut sa: libc::sigaction = std::mem::zeroed();
+            sa.sa_sigaction = on_segv as *const () as usize;
+            sa.sa_flags = libc::SA_ONSTACK;
+            libc::sigemptyset(&mut sa.sa_mask);
+            libc::sigaction(libc::SIGSEGV, &sa, std::ptr::null_mut());
+            libc::sigaction(libc::SIGBUS, &sa, std::ptr::null_mut());
         }
     });
 }
